@@ -28,6 +28,7 @@ var BoundarySizes = []int{
 var Families = []string{
 	"uniform", "alpha2", "alpha4", "alpha16", "nearuniform", "fib", "geom", "text",
 	"equal", "period", "runs", "farcopy", "flip", "sparsematch", "mixed", "zeros-then-random",
+	"utf16", "dominant", "fibexact",
 }
 
 // Make builds n bytes of the named family.
@@ -163,6 +164,64 @@ func Make(r *Rand, family string, n int) Data {
 			sub := Make(r, Families[r.Intn(13)], l) // no recursion into mixed
 			copy(b[i:], sub.B)
 			i += l
+		}
+	case "fibexact":
+		// symbol i occurs exactly ceil(g^i) times (g = golden ratio or 1.65..2),
+		// shuffled: the unrestricted Huffman tree is a chain as deep as the
+		// number of symbols, well beyond the 15-bit (and 7-bit) limits
+		g := []float64{1.6180339887, 1.65, 1.8, 2.0}[r.Intn(4)]
+		perm := r.Perm(256)
+		pos := 0
+		c := 1.0
+		k := 0
+		for ; k < 60 && pos < n; k++ {
+			cnt := int(c + 0.999999)
+			if pos+cnt > n {
+				break
+			}
+			for j := 0; j < cnt; j++ {
+				b[pos] = byte(perm[k])
+				pos++
+			}
+			c *= g
+		}
+		// the rest: the most frequent symbol so far (keeps the chain shape)
+		top := byte(perm[0])
+		if k > 0 {
+			top = byte(perm[k-1])
+		}
+		for ; pos < n; pos++ {
+			b[pos] = top
+		}
+		// shuffle positions
+		for i := n - 1; i > 0; i-- {
+			j := r.Intn(i + 1)
+			b[i], b[j] = b[j], b[i]
+		}
+		desc = fmt.Sprintf("fibexact(g=%.2f,k=%d)/%d", g, k, n)
+	case "utf16":
+		// every second byte is the same value, the others are high-entropy
+		// (as in UTF-16 Latin text: the other bytes never take that value, so its
+		// count is exactly half of any even-sized block)
+		z := byte(r.Pick(0, 0, 0x20, 0xff))
+		r.Fill(b)
+		for i := range b {
+			if b[i] == z {
+				b[i] = z + 1 + byte(i%254)
+			}
+		}
+		for i := r.Intn(2); i < n; i += 2 {
+			b[i] = z
+		}
+	case "dominant":
+		// one symbol with probability 1/2..15/16, the rest uniform
+		z := byte(r.Intn(256))
+		den := r.Pick(2, 2, 3, 4, 8, 16)
+		r.Fill(b)
+		for i := range b {
+			if r.Intn(den) != 0 {
+				b[i] = z
+			}
 		}
 	case "zeros-then-random":
 		h := n / 2
